@@ -10,6 +10,9 @@ Record case := {
   k_old2f : bool;               (* variant before commit da63d9a *)
   k_cfg : config;
   k_tpre : str; k_tsuf : str;   (* lookup_value_transform = add_prefix tpre, add_suffix tsuf *)
+  k_ttable : option (list (str * str));
+                                (* Some t: the chain may return non-str values; it is an oracle given as a table
+                                   raw value -> tagged result ("int:12", "list:['a', 'b']", "s:text") *)
   k_fs : list fs_row;           (* find_system table *)
   k_gdraise : list str;         (* ids for which get_data raises *)
   k_files : list str;           (* regular files that exist *)
@@ -33,7 +36,20 @@ Definition keys_of (tc : tcontext) : list str :=
   (match t_data tc with Some _ => [K_DATA] | None => [] end) ++
   (match t_id tc with Some _ => [K_ID] | None => [] end) ++ [K_RI].
 
-Definition transform_of (k : case) (v : str) : str := k_tpre k ++ v ++ k_tsuf k.
+(* Every value that reaches the data source or the template is compared as a tagged string
+   "<type name>:<repr>" ("s:<text>" for str), so that 12 and "12" differ. *)
+Definition TAG_S : str := bytes_of_string "s:".
+Definition TAG_MISSING : str := bytes_of_string "?no-oracle-answer".
+Fixpoint assoc_str (t : list (str * str)) (v : str) : option str :=
+  match t with
+  | [] => None
+  | (a, b) :: r => if eqb_str v a then Some b else assoc_str r v
+  end.
+Definition transform_of (k : case) (v : str) : str :=
+  match k_ttable k with
+  | None => TAG_S ++ k_tpre k ++ v ++ k_tsuf k
+  | Some t => match assoc_str t v with Some b => b | None => TAG_MISSING end
+  end.
 Definition fs_of (k : case) (p : str) : fsr :=
   if existsb (eqb_str p) (k_files k) then FsOpened [] else FsENOENT.
 
@@ -167,14 +183,28 @@ Definition asObs (x : sx) : option obs :=
   | _ => None
   end.
 
+Definition decode_pair (x : sx) : option (str * str) :=
+  match x with
+  | L [a; b] => obind (asStr a) (fun a => obind (asStr b) (fun b => Some (a, b)))
+  | _ => None
+  end.
+(* () = string chain (prefix/suffix), ((raw tagged) ...) wrapped in a one-element list = oracle table *)
+Definition decode_ttable (x : sx) : option (option (list (str * str))) :=
+  match x with
+  | L [] => Some None
+  | L [L rows] => obind (omap decode_pair rows) (fun rows => Some (Some rows))
+  | _ => None
+  end.
+
 Definition decode (x : sx) : option (case * obs) :=
   match x with
-  | L [tf; o2; cfg; B tpre; B tsuf; L fst; L gdr; L files; B uri; io] =>
+  | L [tf; o2; cfg; B tpre; B tsuf; ttb; L fst; L gdr; L files; B uri; io] =>
       obind (asBool tf) (fun tf => obind (asBool o2) (fun o2 => obind (decode_config cfg) (fun cfg =>
-      obind (omap decode_fs_row fst) (fun fst => obind (omap asB gdr) (fun gdr =>
+      obind (decode_ttable ttb) (fun ttb =>
+      obind (omap decode_fs_row fst) (fun fst => obind (omap asStr gdr) (fun gdr =>
       obind (omap asB files) (fun files => obind (asObs io) (fun io =>
-      Some ({| k_tftp := tf; k_old2f := o2; k_cfg := cfg; k_tpre := tpre; k_tsuf := tsuf; k_fs := fst;
-               k_gdraise := gdr; k_files := files; k_uri := uri |}, io))))))))
+      Some ({| k_tftp := tf; k_old2f := o2; k_cfg := cfg; k_tpre := tpre; k_tsuf := tsuf; k_ttable := ttb;
+               k_fs := fst; k_gdraise := gdr; k_files := files; k_uri := uri |}, io)))))))))
   | _ => None
   end.
 
